@@ -64,8 +64,13 @@ def run(chk):
         rc_inner = dict(rc[3]).get("0") if rc[0] == "agg" and rc[2] == "Some" else None
         same_c = rc_inner is not None and base(rc_inner) == base(cred)
         chk.ob("R2 key", "R2|get_assertion|returned-id-of-signing-credential", bool(same_c), where(ga, rb), "Response.credential = %s" % flow.term_str(rc)[:200])
-        u = r["user"]
-        same_u = is_call(u, "Option::map") and u[2][0][0] == "field" and u[2][0][2] == "user_handle" and base(u[2][0][1]) == base(cred)
+        # Response.user is a selection on the presence of <that credential>.user_handle (map / match / if let alike)
+        from . import normal as _normal
+        _N = _normal.Normalizer(p, summary.Summaries(p))
+        u = _N.inline(r["user"])
+        is_handle = lambda x: isinstance(x, tuple) and len(x) == 3 and x[0] == "field" and x[2] == "user_handle"
+        sel, handle = flow.presence_selection(u, is_handle)
+        same_u = handle is not None and set(sel) == {True, False} and sel[False] == _normal.NONE and base(handle[1]) == base(_N.inline(cred))
         chk.ob("R2 key", "R2|get_assertion|returned-handle-of-signing-credential", bool(same_u), where(ga, rb), "Response.user = %s" % flow.term_str(u)[:200])
     pkf = [b for b in p.all_bodies if b.path == "passkey_authenticator::private_key_from_cose_key"]
     if chk.require("R2 key", "R2|private_key_from_cose_key", len(pkf) == 1, "passkey_authenticator", "private_key_from_cose_key not found"):
